@@ -10,7 +10,20 @@ extern "C" TIFF* __real_TIFFOpen(char const* name, char const* mode);
 
 namespace sim {
 
-static tmsize_t tf_read(thandle_t h, void* buf, tmsize_t n) { long r = ((Channel*)h)->read(buf, (size_t)n); return r < 0 ? (tmsize_t)-1 : (tmsize_t)r; }
+// libtiff expects its read procedure to deliver the full count unless the file ends (its own unix procedure loops over
+// read(2)); short deliveries of the device are therefore absorbed here, each one still being a device step
+static tmsize_t tf_read(thandle_t h, void* buf, tmsize_t n)
+{
+    tmsize_t got = 0;
+    while (got < n)
+    {
+        long r = ((Channel*)h)->read((char*)buf + got, (size_t)(n - got));
+        if (r < 0) return (tmsize_t)-1;
+        if (r == 0) break;
+        got += r;
+    }
+    return got;
+}
 static tmsize_t tf_write(thandle_t h, void* buf, tmsize_t n) { long r = ((Channel*)h)->write(buf, (size_t)n); return r < 0 ? (tmsize_t)-1 : (tmsize_t)r; }
 static toff_t tf_seek(thandle_t h, toff_t off, int whence)
 {
